@@ -130,7 +130,7 @@ ReadDone ==
 Next == \/ \E p \in 0..(MaxFile + 2) : SeekPos(p)
         \/ \E n \in 0..B : Discard(n)
         \/ \E n \in 0..B : RBCall(n, "readbytes")
-        \/ RBCall(1, "u8") \/ RBCall(2, "u16") \/ RBCall(4, "u32")
+        \/ RBCall(1, "u8") \/ (B >= 2 /\ RBCall(2, "u16")) \/ (B >= 4 /\ RBCall(4, "u32"))   \* n <= B (1024 in the code)
         \/ RBIter \/ RBReturn
         \/ \E m \in 0..(2 * B + 1) : ReadCall(m)
         \/ ReadChunk \/ ReadDone
